@@ -72,6 +72,17 @@ Theorem C16_control_block_roundtrip : forall liftable c,
 Proof. exact parse_ser_cb. Qed.
 Print Assumptions C16_control_block_roundtrip.
 
+(* what the bytes do to an odd leaf version (fine in memory, see C16_every_leaf_verifies):
+   bit 0 is the parity flag, the parsed block carries version & 0xfe and parity = true *)
+Theorem C16_control_block_odd_version : forall liftable c,
+  length (cb_key c) = 32 -> liftable (cb_key c) = true ->
+  (exists k, length (cb_proof c) = 32 * k /\ k <= 128) ->
+  N.testbit (n8 (cb_version c)) 0%N = true ->
+  parse_cb liftable (ser_cb c) =
+  Some (mk_cblock (cb_key c) true (b8 (N.land (n8 (cb_version c)) 0xfe%N)) (cb_proof c)).
+Proof. exact parse_ser_cb_odd_version. Qed.
+Print Assumptions C16_control_block_odd_version.
+
 (* the depth bound: 128 nodes (4129 bytes) is accepted by the theorem above, anything longer
    is refused by ParseControlBlock *)
 Theorem C16_control_block_max_size : forall liftable bs,
